@@ -81,6 +81,9 @@ type Script struct {
 	// handler has returned (a decorating Mux function, access logging): the reply body ends that much later than
 	// its last byte was flushed
 	SlowFinish bool `json:",omitempty"`
+	// SrvInt: the carrier itself (in-process channel, HTTP server) is configured with pass-through server
+	// interceptors (logging, metrics): they change nothing about the outcome of a call
+	SrvInt bool `json:",omitempty"`
 }
 
 // chunkedWriter drops Content-Length and flushes the header, so the reply goes out chunked.
@@ -351,6 +354,14 @@ func runScript(s *Script, name string, copts carrierOpts) *Obs {
 				h.ServeHTTP(w, r)
 				time.Sleep(2 * time.Millisecond)
 			})
+		}
+	}
+	if s.SrvInt && name != cGRPC && copts.UnaryInt == nil && copts.StreamInt == nil {
+		copts.UnaryInt = func(ctx context.Context, req interface{}, _ *grpc.UnaryServerInfo, h grpc.UnaryHandler) (interface{}, error) {
+			return h(ctx, req)
+		}
+		copts.StreamInt = func(srv interface{}, ss grpc.ServerStream, _ *grpc.StreamServerInfo, h grpc.StreamHandler) error {
+			return h(srv, ss)
 		}
 	}
 	desc := newServiceDesc()
